@@ -6,15 +6,27 @@ from __future__ import annotations
 
 import copy
 
-from simkit.kernel import execute
+from simkit.kernel import execute_with_prelude, isolated
 
 INT_MIN1 = {"r", "k"}
 INT_KEYS = {"x", "y", "at", "w", "h", "start", "r", "k", "index", "col", "row", "n", "level_n", "pos", "i", "j", "length", "offset", "olevel"}
 LIST_KEYS = {"values", "cells", "rows", "edits", "cols", "a", "ops2", "chunks", "marks", "headings", "calls", "saves"}
 
 
+class _Hit:
+    """what a failing attempt reports back from its child process"""
+
+    class _V:
+        def __init__(self, step):
+            self.step = step
+
+    def __init__(self, step):
+        self.violation = _Hit._V(step)
+
+
 class Shrinker:
-    def __init__(self, engine_cls, prop, cfg, findings, klass, budget=400, wall_s=90.0, replay_timeout_s=8.0):
+    def __init__(self, engine_cls, prop, cfg, findings, klass, budget=400, wall_s=90.0, replay_timeout_s=8.0, prelude=None):
+        self.prelude = prelude or []  # earlier runs of the same process that the failure depends on (usually none)
         self.engine_cls = engine_cls
         self.prop = prop
         self.cfg = cfg
@@ -33,13 +45,56 @@ class Shrinker:
             self.tries = self.budget  # stop everything
             return None
         self.tries += 1
-        r = execute(self.engine_cls, self.prop, cfg=self.cfg, ops=ops, findings=self.findings, timeout_s=self.replay_timeout_s)
+        # every attempt runs in a child forked from this (never-ran-anything) process: same starting state each time
+        r = isolated(self._attempt, self.prelude, ops)
+        if r is None or tuple(r[0]) != tuple(self.klass):
+            return None
+        return _Hit(r[1])
+
+    def _attempt(self, prelude, ops):
+        r = execute_with_prelude(self.engine_cls, self.prop, prelude, self.cfg, ops, self.findings, timeout_s=self.replay_timeout_s)
         if r.harness_error or r.violation is None:
             return None
-        if r.violation.klass() != self.klass:
-            return None
-        # keep only the prefix up to the failing step
-        return r
+        return (r.violation.klass(), r.violation.step)
+
+    def fails_with_prelude(self, prelude, ops):
+        if self.tries >= self.budget or self._clock() > self.deadline:
+            self.tries = self.budget
+            return False
+        self.tries += 1
+        r = isolated(self._attempt, prelude, ops)
+        return r is not None and tuple(r[0]) == tuple(self.klass)
+
+    def minimise_prelude(self, ops):
+        """ddmin over whole runs of the prelude"""
+        pre = list(self.prelude)
+        if not pre:
+            return pre
+        if self.fails_with_prelude([], ops):
+            self.prelude = []
+            return []
+        # most often only the run just before matters, or the first ones
+        for cand in ([pre[-1]], pre[-2:], pre[:1], pre[:2]):
+            if len(cand) < len(pre) and self.fails_with_prelude(cand, ops):
+                pre = list(cand)
+                break
+        n = 2
+        while len(pre) >= 2 and self.tries < self.budget:
+            chunk = max(1, len(pre) // n)
+            reduced = False
+            for start in range(0, len(pre), chunk):
+                cand = pre[:start] + pre[start + chunk:]
+                if self.fails_with_prelude(cand, ops):
+                    pre = cand
+                    n = max(n - 1, 2)
+                    reduced = True
+                    break
+            if not reduced:
+                if chunk == 1:
+                    break
+                n = min(n * 2, len(pre))
+        self.prelude = pre
+        return pre
 
     def ddmin(self, ops):
         # op 0 (init) is kept fixed
